@@ -1,6 +1,7 @@
 package main
 
 import (
+	"errors"
 	"fmt"
 	"strings"
 	"sync/atomic"
@@ -106,6 +107,21 @@ func c13Binding(c *C) {
 			m.defaults[i] = argsA[r.Intn(len(argsA))]
 		}
 	}
+	if r.Chance(15) {
+		// a macro body that failed after having produced text (locally defined and imported) went before
+		pset, _ := newSet(map[string]string{"/plib.tpl": "{% macro pbad() export %}STALE-IMPORTED{{ failfn() }}{% endmacro %}"})
+		for _, psrc := range []string{"{% macro bad(p0) %}STALE-MACRO-TEXT{{ p0 }}{{ failfn() }}tail{% endmacro %}x{{ bad(1) }}", "{% import \"/plib.tpl\" pbad %}{{ pbad() }}"} {
+			if pt, perr := pset.FromString(psrc); perr == nil {
+				pctx := c13Ctx(cvA)
+				pctx["failfn"] = func() (string, error) { return "", errors.New("c13: deliberate failure inside a macro body") }
+				if _, xe := pt.Execute(pctx); xe == nil {
+					c.Fail("binding", D{"source": psrc, "why": "the failing function's error was lost"})
+					return
+				}
+			}
+		}
+		c.Cover("after_failed_macro_bodies")
+	}
 	type call struct{ idx []int }
 	ncalls := 1 + r.Intn(3)
 	var calls []call
@@ -139,9 +155,9 @@ func c13Binding(c *C) {
 		return sb.String()
 	}
 	variants := map[string]map[string]string{
-		"local":    {"/main.tpl": m.def("mac", false) + callSrc("mac")},
-		"imported": {"/main.tpl": "{% import \"/lib/macros.tpl\" mac %}" + callSrc("mac"), "/lib/macros.tpl": "ignored text " + m.def("mac", true) + m.def("other", true)},
-		"aliased":  {"/main.tpl": "{% import \"lib/macros.tpl\" other, mac as alias %}" + callSrc("alias"), "/lib/macros.tpl": m.def("mac", true) + " " + m.def("other", true)},
+		"local":                  {"/main.tpl": m.def("mac", false) + callSrc("mac")},
+		"imported":               {"/main.tpl": "{% import \"/lib/macros.tpl\" mac %}" + callSrc("mac"), "/lib/macros.tpl": "ignored text " + m.def("mac", true) + m.def("other", true)},
+		"aliased":                {"/main.tpl": "{% import \"lib/macros.tpl\" other, mac as alias %}" + callSrc("alias"), "/lib/macros.tpl": m.def("mac", true) + " " + m.def("other", true)},
 		"local-exported-in-with": {"/main.tpl": "{% with unrelated=1 %}" + m.def("mac", true) + callSrc("mac") + "{% endwith %}"},
 	}
 	outs := map[string][2]execResult{}
